@@ -53,13 +53,27 @@ type scenario struct {
 	nref, npeer               int
 	rounds                    []roundSpec
 	fam                       string
+	done                      chan struct{} // closed when Run's goroutine has ended (set by runScenario)
 }
 
 // ---- fakes ----
 
 type recorder struct {
-	mu     gosync.Mutex
-	events []string
+	mu         gosync.Mutex
+	events     []string
+	roundStart time.Time // virtual time at which the current round began (start of Run, return of Sleep)
+}
+
+func (r *recorder) startRound() {
+	r.mu.Lock()
+	r.roundStart = time.Now()
+	r.mu.Unlock()
+}
+
+func (r *recorder) sinceRoundStart() time.Duration {
+	r.mu.Lock()
+	defer r.mu.Unlock()
+	return time.Since(r.roundStart)
 }
 
 func (r *recorder) add(s string) {
@@ -103,11 +117,16 @@ func (c *fakeClock) Sleep(d time.Duration) {
 		}
 		time.Sleep(d) // virtual time inside the bubble
 	}
+	c.rec.startRound()
 }
 
 type fakeAdj struct{ rec *recorder }
 
-func (a *fakeAdj) Do(offset time.Duration) { a.rec.add(lib.L("0", lib.I(int64(offset)))) }
+// Do records the correction and the virtual time that has passed since the round began: the property hands one
+// correction per round to the discipline whatever delays the sources produce, i.e. by the round's deadline
+func (a *fakeAdj) Do(offset time.Duration) {
+	a.rec.add(lib.L("0", lib.I(int64(offset)), lib.I(int64(a.rec.sinceRoundStart()))))
+}
 
 var errScripted = errors.New("scripted failure")
 
@@ -142,10 +161,30 @@ func (s *source) MeasureClockOffset(ctx context.Context) (time.Time, time.Durati
 			time.Sleep(time.Duration(b.delay))
 		}
 		return ts, time.Duration(b.val), errScripted
+	case 4:
+		// ignores its context: comes back long after the deadline (timeout + 3 intervals of virtual time) or when
+		// the scenario is over, whichever is first
+		select {
+		case <-s.sc.done:
+		case <-time.After(hangOf(s.sc)):
+		}
+		return ts, time.Duration(b.val), errScripted
 	default:
 		<-ctx.Done()
 		return ts, time.Duration(b.val), ctx.Err()
 	}
+}
+
+func hangOf(sc *scenario) time.Duration {
+	lim := int64(1) << 42
+	iv, to := sc.interval, sc.timeout
+	if iv < 0 || iv > lim {
+		iv = lim
+	}
+	if to < 0 || to > lim {
+		to = lim
+	}
+	return time.Duration(to + 3*iv + 1)
 }
 
 // runScenario drives the real sync.Run for len(sc.rounds) rounds.
@@ -174,7 +213,10 @@ func runScenario(sc *scenario) (panicked bool, events []string) {
 	prometheus.DefaultRegisterer = prometheus.NewRegistry()
 	var pan atomic.Bool
 	synctest.Run(func() {
+		sc.done = make(chan struct{}) // made inside the bubble: waiting on it is a durable block for synctest
+		rec.startRound()
 		go func() {
+			defer close(sc.done)
 			defer func() {
 				if r := recover(); r != nil {
 					pan.Store(true)
@@ -276,6 +318,8 @@ func (sc *scenario) tags(pan bool, events []string) string {
 						t["src-late"] = true
 					case 3:
 						t["src-never"] = true
+					case 4:
+						t["src-ignores-context"] = true
 					}
 				}
 			}
@@ -287,7 +331,7 @@ func (sc *scenario) tags(pan bool, events []string) string {
 		}
 		for _, e := range events {
 			f := strings.Fields(strings.Trim(e, "[]"))
-			if len(f) == 2 && f[0] == "0" {
+			if len(f) == 3 && f[0] == "0" {
 				c := lib.ParseI(f[1])
 				a := float64(abs64(c))
 				switch {
@@ -443,8 +487,10 @@ func main() {
 	}
 	generate(r, nScen, nDrift, maxRounds)
 	// ties at the deadline, SyncTimeout = 0, strict judgement of caps in [2^62, 2^63), many sources
-	for i := 0; i < nScen/20; i++ {
-		switch i % 4 {
+	for i := 0; i < nScen/16; i++ {
+		switch i % 5 {
+		case 4:
+			emit(genSingleHang(r))
 		case 0:
 			emit(genTies(r, maxRounds))
 		case 1:
